@@ -24,7 +24,7 @@ def main():
     assert sh("git -C %s status --porcelain" % REPO).stdout.strip() == "", "/repo working tree is not clean"
     for d in sorted(glob.glob(os.path.join(VERIF, "seeded", "*"))):
         name = os.path.basename(d)
-        if not os.path.isdir(d) or (want and not any(name.startswith(w) for w in want)):
+        if not os.path.isdir(d) or not os.path.exists(os.path.join(d, "meta.json")) or (want and not any(name.startswith(w) for w in want)):
             continue
         meta = json.load(open(os.path.join(d, "meta.json")))
         prop = meta["property"]
